@@ -156,6 +156,19 @@ def default_L_task(theta, delta, K, tier):
                           "noise_var": frac_json(model_value(m2, v.e)), "eps": frac_json(model_value(m2, eps.e))},
                          {"theta": theta, "delta": delta, "claim": "PAC"})
             return
+        # sufficiency half, *given the paper's Lemma B.12*: L_code ≥ 4 (c σ β / ε)² ln(4m / (2δ/(K(K−1)))) with σ² = noise_var
+        c = Fraction(1 + math.sqrt(2))
+        beta = Fraction(float(order.ordering_cone.beta))
+        ln_arg = Fraction(math.log(4 * 2 / (2 * delta / (K * (K - 1))))) * (1 - Fraction(1, 10**12))
+        paper = 4 * sym.rv(c * c * beta * beta * ln_arg) * v.e / (eps.e * eps.e)
+        mdl = ctx.prove("default L ≥ the paper's bound 4(cσβ/ε)²·ln(·) with σ = √noise_var (sufficient by Lemma B.12)",
+                        L >= paper * sym.rv(1 - Fraction(1, 10**9)))
+        if mdl is not None:
+            ex.candidate("default L below the paper's sufficient sample count",
+                         {"kind": "paper_L", "theta": theta, "delta": delta, "K": K,
+                          "noise_var": frac_json(model_value(mdl, v.e)), "eps": frac_json(model_value(mdl, eps.e))},
+                         {"theta": theta, "delta": delta, "claim": "paper bound"})
+            return
         ctx.sample({"theta": theta, "delta": delta, "K": K, "L_term": str(z3.simplify(L))[:120]})
 
     ex.run(body)
@@ -168,6 +181,17 @@ def default_L_task(theta, delta, K, tier):
 def replay(case):
     mod = _mod()
     import vopy.order as vo
+    if case["kind"] == "paper_L":
+        theta, delta, K = case["theta"], case["delta"], case["K"]
+        v = float(Fraction(from_frac_json(case["noise_var"])))
+        eps = float(Fraction(from_frac_json(case["eps"])))
+        order = vo.ConeTheta2DOrder(theta)
+        ds = A.DSStub(K, 2)
+        with patched((mod, {"get_dataset_instance": lambda n: ds})):
+            a = mod.NaiveElimination(eps, delta, "stub", order, v)
+        want = 4 * ((1 + math.sqrt(2)) * math.sqrt(v) * order.ordering_cone.beta / eps) ** 2 * math.log(4 * 2 / (2 * delta / (K * (K - 1))))
+        return {"reproduced": bool(int(a.L) < want * (1 - 1e-9)), "L": int(a.L),
+                "detail": f"NaiveElimination(ε={eps}, δ={delta}, noise_var={v}, θ={theta}, K={K}).L = {int(a.L)} < paper's bound {want:.3f}"}
     if case["kind"] == "default_L":
         from scipy.stats import multivariate_normal
         theta, delta, K = case["theta"], case["delta"], case["K"]
